@@ -1,10 +1,22 @@
 """C05 - honestly signed messages are accepted by every station sharing the trust root (TS 103 097 clause 7.1 profiles).
 
-Decides: agreement between what the signers sign / emit and what the verifier recomputes / accepts (same tbsData object,
-no change of signed content after the TBS encoding, no aliasing of shared mutable state into the signed structure);
-per-profile header fields (always / optional per signer vs required / forbidden per verifier and PSID); signer kind per
-profile and the certificate-inclusion trigger with its state discipline; source-side security encapsulation of the
-router; the ticket used for signing; the P2PCD plumbing (who notifies whom).
+Decides: agreement between what the signers sign / emit and what the verifier recomputes / accepts (tbs-agree: the TBS
+encoding is taken of the tbsData of the very object that is emitted, payload = the request's message, the signature
+stored is the looked-up ticket's over those bytes, nothing under tbsData is written after the TBS encoding, no live
+reference to shared mutable state is stored into the signed structure); per-profile header fields (profile-keys: keys
+always / optionally emitted by each signer = the clause 7.1 table, psid and generationTime provenance, and per PSID no
+verifier exit refuses what the serving signer emits; the verifier insists on a certificate for DENM); signer kind per
+profile (signer-kind: DENM certificate, generic digest, CAM/VAM through set_up_signer, which answers the certificate
+exactly under `elapsed > 1 s or a peer asked`, restarts timer and flag there, the digest otherwise; sign_request serves
+each PSID by its profile's signer) and who may write that state (inclusion-state: only set_up_signer, notifications only
+set the flag); the ticket used for signing (signing-ticket: an own certificate covering the request's ITS-AID, a missing
+one raises); the P2PCD plumbing (p2pcd: unknown digest / issuer reported, verified inline request and requested
+certificate relayed, unknown ticket queued and own certificate scheduled - also when a received request lists an own
+id -, pending requests attached to the next CAM/VAM);
+source-side encapsulation of the router (router-encap: which signer serves each security profile, signed bytes = common
+header || extended header || payload as the receiver parses them, ITS-AID and length from the request, and at every
+send the signed message follows a Basic Header re-stamped NH=SECURED_PACKET in the block that signs, while an emission
+without a secured alternative never carries that re-stamped header in front of clear bytes).
 Does not decide acceptance "within two further exchanges" over histories of joins, real-time behaviour of the 1 s timer,
 anything cryptographic.
 """
